@@ -40,7 +40,7 @@ func VerifC05OCIPush() {
 	if err != nil {
 		panic(err)
 	}
-	truths := []string{"", "a", "ab"}
+	truths := []string{"", "a", "ab", "abc", "abcd"}
 	truth := []byte(truths[verifrt.Choice(S+1)])
 	desc := ocispec.Descriptor{MediaType: "application/octet-stream", Digest: digest.FromBytes(truth), Size: int64(len(truth))}
 	if verifrt.Bool() {
